@@ -313,3 +313,71 @@ Theorem raw_plain_link id : 0 <= id < 268435456 ->
 Proof.
   intro R. unfold group_of_raw, raw_is_group. rewrite Z.mod_small, Z.div_small by lia. now split.
 Qed.
+
+(* ---------- selectors and accessors agree (C13) ---------- *)
+
+Lemma upto_nul_cut_nul bs : upto_nul bs = cut_nul bs.
+Proof. induction bs as [|b r IH]; [reflexivity|]. cbn [upto_nul cut_nul]. now rewrite IH. Qed.
+
+(* WithPartitionType(pt) selects exactly the descriptors whose PartitionMetadata() reports pt *)
+Theorem sel_parttype_iff d pt :
+  sel_eval (SPartType pt) d = SMatch true <-> exists fs a, partition_metadata d = inl (fs, pt, a).
+Proof.
+  cbn [sel_eval]. unfold is_partition_of_type, partition_metadata.
+  destruct (Z.eqb_spec (d_type d) DataPartition) as [T|T]; cbn [andb].
+  - split.
+    + intro H. injection H as H. apply Z.eqb_eq in H. rewrite H. eauto.
+    + intros (fs & a & H). injection H as _ H _. rewrite H, Z.eqb_refl. reflexivity.
+  - split; [discriminate | intros (fs & a & H); discriminate].
+Qed.
+
+(* WithOCIBlobDigest(text) selects exactly the descriptors whose OCIBlobDigest() is text *)
+Theorem sel_oci_digest_iff d text :
+  sel_eval (SOCIDigest text) d = SMatch true <-> oci_digest d = inl text.
+Proof.
+  cbn [sel_eval]. unfold oci_digest, is_oci_type. rewrite <- upto_nul_cut_nul.
+  destruct ((d_type d =? DataOCIRootIndex) || (d_type d =? DataOCIBlob)); cbn [andb].
+  - destruct (valid_digest_text (upto_nul (d_extra d))); cbn [andb].
+    + split.
+      * intro H. injection H as H. apply bytes_eqb_eq in H. now rewrite H.
+      * intro H. injection H as H. rewrite H, bytes_eqb_refl. reflexivity.
+    + split; discriminate.
+  - split; discriminate.
+Qed.
+
+Theorem sel_group_iff d g :
+  g <> 0 -> (sel_eval (SGroup g) d = SMatch true <-> group_of d = g).
+Proof.
+  intro N. cbn [sel_eval]. destruct (Z.eqb_spec g 0); [contradiction|]. unfold group_of. split.
+  - intro H. injection H as H. now apply Z.eqb_eq.
+  - intro H. now rewrite H, Z.eqb_refl.
+Qed.
+
+Theorem sel_nogroup_iff d : sel_eval SNoGroup d = SMatch true <-> group_of d = 0.
+Proof.
+  cbn [sel_eval]. unfold group_of. split.
+  - intro H. injection H as H. now apply Z.eqb_eq.
+  - intro H. now rewrite H.
+Qed.
+
+Theorem sel_linked_iff d id :
+  id <> 0 -> (sel_eval (SLinkedID id) d = SMatch true <-> linked_of d = (id, false)).
+Proof.
+  intro N. cbn [sel_eval]. destruct (Z.eqb_spec id 0); [contradiction|]. unfold linked_of.
+  destruct (raw_is_group (d_link d)); cbn [negb andb].
+  - split; [discriminate | intro H; injection H as _ H; discriminate].
+  - split.
+    + intro H. injection H as H. apply Z.eqb_eq in H. now rewrite H.
+    + intro H. injection H as H. now rewrite H, Z.eqb_refl.
+Qed.
+
+Theorem sel_linked_group_iff d g :
+  g <> 0 -> (sel_eval (SLinkedGroup g) d = SMatch true <-> linked_of d = (g, true)).
+Proof.
+  intro N. cbn [sel_eval]. destruct (Z.eqb_spec g 0); [contradiction|]. unfold linked_of.
+  destruct (raw_is_group (d_link d)); cbn [andb].
+  - split.
+    + intro H. injection H as H. apply Z.eqb_eq in H. now rewrite H.
+    + intro H. injection H as H. now rewrite H, Z.eqb_refl.
+  - split; [discriminate | intro H; injection H as _ H; discriminate].
+Qed.
